@@ -1485,7 +1485,7 @@ theorem closed_writeResponse (r : Resp) : (writeResponse ctx r s).1.closed = s.c
   have e : (writeResponse ctx r s).1 =
       (fun s1 : St => ({ (recycleContinueConn ctx s1.continueConn s1) with continueConn := none } : St))
       (match s.continueConn with
-       | some c => if r == .res || r == .ok then { s with w := streamRest ctx c s.w } else s
+       | some c => if r == .res || r == .ok then { s with w := closeGivenUp c (streamRest ctx c s.w) } else s
        | none => s) := rfl
   rw [e]
   simp only [closed_recycleContinueConn]
@@ -1500,11 +1500,11 @@ theorem idle_writeResponse (hcfg : ctx.cfg = cfg) (hT : QH q ctx) (r : Resp) (h 
   have e : (writeResponse ctx r s).1 =
       (fun s1 : St => ({ (recycleContinueConn ctx s1.continueConn s1) with continueConn := none } : St))
       (match s.continueConn with
-       | some c => if r == .res || r == .ok then { s with w := streamRest ctx c s.w } else s
+       | some c => if r == .res || r == .ok then { s with w := closeGivenUp c (streamRest ctx c s.w) } else s
        | none => s) := rfl
   rw [e]
   generalize hs1 : (match s.continueConn with
-       | some c => if r == Resp.res || r == Resp.ok then { s with w := streamRest ctx c s.w } else s
+       | some c => if r == Resp.res || r == Resp.ok then { s with w := closeGivenUp c (streamRest ctx c s.w) } else s
        | none => s) = s1
   have hc1 : s1.continueConn = s.continueConn := by
     rw [← hs1]; split
@@ -1515,7 +1515,7 @@ theorem idle_writeResponse (hcfg : ctx.cfg = cfg) (hT : QH q ctx) (r : Resp) (h 
     intro L c hcc hI hcm
     rw [← hs1]; simp only [hcc]
     split
-    · exact ⟨wi_streamRest ctx hT hI.wi hcm, hI.ksOff, hI.ksOn, hI.txIdle⟩
+    · exact ⟨wi_closeGivenUp ctx hT hI.wi hcm (wi_streamRest ctx hT hI.wi hcm), hI.ksOff, hI.ksOn, hI.txIdle⟩
     · exact hI
   have hO1 : ∀ {L : CMap} {c : Nat}, s.continueConn = some c → OwnedBy cfg L s c → OwnedBy cfg L s1 c := by
     intro L c hcc hO
@@ -1625,7 +1625,8 @@ def NoTOp (op : Op) : Prop := ∀ f ∈ op.faults, f.mode ≠ .t
 
 /-- the backend loses no connection during this operation: no statement timeout,
     no call that leaves the connection closed, no ping failure -/
-def CalmOp (op : Op) : Prop := ∀ f ∈ op.faults, f.mode ≠ .t ∧ f.mode ≠ .z ∧ f.k ≠ .p
+def CalmOp (op : Op) : Prop :=
+  ∀ f ∈ op.faults, f.mode ≠ .t ∧ f.mode ≠ .z ∧ f.k ≠ .p ∧ ¬(f.mode = .e ∧ (f.k = .m ∨ f.k = .n))
 
 structure QHOp (q : Q) (op : Op) : Prop where
   p : q.p = true → CalmOp op
